@@ -8,36 +8,6 @@ func init() {
 	vfHarnesses["VerifH_body_chunks"] = VerifH_body_chunks
 }
 
-func vfIsPlainStringByte(c byte) bool { return c >= 0x20 && c != '"' && c != '\\' }
-func vfIsDigit(c byte) bool           { return c >= '0' && c <= '9' }
-
-// vfJSONMessage picks a JSON object from a small grammar; filler bytes are symbolic.
-func vfJSONMessage() []byte {
-	switch vfChoice(6) {
-	case 0:
-		return []byte(`{}`)
-	case 1:
-		d := vfByte()
-		vfAssume(vfIsDigit(d))
-		return []byte{'{', '"', 'a', '"', ':', d, '}'}
-	case 2:
-		// string value with an arbitrary plain byte (may be a brace)
-		x := vfByte()
-		vfAssume(vfIsPlainStringByte(x))
-		return []byte{'{', '"', 's', '"', ':', '"', x, '"', '}'}
-	case 3:
-		// escaped quote or backslash inside a string, followed by a brace
-		e := byte('"')
-		if vfBool() {
-			e = '\\'
-		}
-		return []byte{'{', '"', 's', '"', ':', '"', '\\', e, '}', '"', '}'}
-	case 4:
-		return []byte(`{"o":{}}`)
-	}
-	return []byte(`{"o":{"p":"{"}}`)
-}
-
 // refJSONEnd returns the length of the first top-level JSON object in b (brace matching outside
 // strings, backslash escapes inside strings), 0 if incomplete, -1 if a closing brace comes first.
 func refJSONEnd(b []byte) int {
